@@ -44,6 +44,7 @@ type Contract struct {
 	MayPanic  bool
 	NoSafety  bool
 	DynCallsFrame bool
+	DynCallsPure bool
 	TrustedFrame bool // `assigns` is assumed at call sites; the per-write frame obligations of the body are not generated
 	Trusted   bool // contract is assumed, body not verified (listed in evidence)
 	Fresh     bool // result is freshly allocated
@@ -93,6 +94,7 @@ type SpecFunc struct {
 }
 
 type Axiom struct {
+	Pkg   string
 	Label string
 	E     *SExpr
 	Src   string
@@ -102,7 +104,7 @@ type Axiom struct {
 var clauseKeywords = map[string]bool{
 	"func": true, "ext": true, "spec": true, "abstract": true, "axiom": true, "prop": true,
 	"requires": true, "ensures": true, "assigns": true, "loop": true, "call": true, "pure": true,
-	"may_panic": true, "nosafety": true, "trusted": true, "bounded": true, "fresh": true, "emits": true, "note": true, "sets": true, "ghost": true, "readonly": true, "trusted_frame": true, "guarded": true, "dyncalls_frame": true,
+	"may_panic": true, "nosafety": true, "trusted": true, "bounded": true, "fresh": true, "emits": true, "note": true, "sets": true, "ghost": true, "readonly": true, "trusted_frame": true, "guarded": true, "dyncalls_pure": true, "dyncalls_frame": true,
 }
 
 var labelRe = regexp.MustCompile(`^@([A-Za-z0-9_\-./]+)\s+`)
@@ -284,7 +286,7 @@ func (e *Engine) readContractFile(path, pkgKey string) error {
 			if err != nil {
 				return err
 			}
-			e.axioms = append(e.axioms, &Axiom{Label: c.Label, E: c.E, Src: c.Src, Where: where})
+			e.axioms = append(e.axioms, &Axiom{Pkg: pkgKey, Label: c.Label, E: c.E, Src: c.Src, Where: where})
 			cur = nil
 		default:
 			if cur == nil {
@@ -369,6 +371,10 @@ func (e *Engine) readContractFile(path, pkgKey string) error {
 			case "pure":
 				cur.Pure = true
 				cur.HasAssign = true
+			case "dyncalls_pure":
+				cur.DynCallsPure = true
+				cur.DynCallsFrame = true
+				cur.Notes = append(cur.Notes, "calls through function values are modelled as pure functions of (function value, arguments): "+rest)
 			case "dyncalls_frame":
 				cur.DynCallsFrame = true
 				cur.Notes = append(cur.Notes, "calls through function values are assumed not to write state visible here: "+rest)
